@@ -56,6 +56,8 @@ func (self *Analyzer) expression(node pAst.Expression) ast.AnalyzedExpression {
 		res = self.functionLiteral(src)
 	case pAst.GroupedExpressionKind:
 		src := node.(pAst.GroupedExpression)
+		// Parentheses do not change where an `any` value may stand: `(any_func()) as int`
+		self.currentModule.CreateErrorIfContainsAny = errOnAnyPrev
 		analyzed := self.expression(src.Inner)
 		res = ast.AnalyzedGroupedExpression{Inner: analyzed, Range: src.Range}
 	case pAst.PrefixExpressionKind:
